@@ -21,6 +21,28 @@ pub fn s_by_insc(pk: u8, data: Vec<u8>) -> TxSpec {
     TxSpec::CallByInsc { pk, insc: crate::world::s_insc(), data, len: DEFAULT_LEN }
 }
 
+/// An inscription id that is deployed more than once over a history (on different branches, at different addresses)
+pub fn x_insc() -> String {
+    format!("{}i7", "ee".repeat(32))
+}
+
+/// Two blocks that deploy a second copy of S under `x_insc()` and call it through that id; in the second one the
+/// deployer has made another deployment first, so the contract lands at another address.
+pub fn m_deploy_x_first() -> Macro {
+    m_block("B(deploy X, call X by inscription id)", vec![
+        TxSpec::DeployAs { pk: 3, code: asm::s_initcode(), len: DEFAULT_LEN, insc: x_insc() },
+        TxSpec::CallByInsc { pk: 1, insc: x_insc(), data: asm::s_set(0, 5, 1, [5, 0, 0, 0]), len: DEFAULT_LEN },
+    ])
+}
+
+pub fn m_deploy_x_second() -> Macro {
+    m_block("B(deploy other, deploy X, call X by inscription id)", vec![
+        TxSpec::Deploy { pk: 3, code: asm::CHILD_INIT.to_vec(), len: DEFAULT_LEN },
+        TxSpec::DeployAs { pk: 3, code: asm::s_initcode(), len: DEFAULT_LEN, insc: x_insc() },
+        TxSpec::CallByInsc { pk: 1, insc: x_insc(), data: asm::s_set(0, 6, 1, [6, 0, 0, 0]), len: DEFAULT_LEN },
+    ])
+}
+
 pub fn s_call(pk: u8, data: Vec<u8>) -> TxSpec {
     TxSpec::Call { pk, tgt: Tgt::s(), data, len: DEFAULT_LEN }
 }
